@@ -2,14 +2,16 @@
   Rbgp.Fib.Props — C20: kernel FIB requests and next-hop tracking stay in step with the RIB.
 
   Statements only; proofs are in Rbgp.Fib.Proofs.  A *history* is any list of operations
-  (route insert / replace / remove, peer drop, GR stale marking, stale purge, soft reset IN,
-  import-policy change, next-hop reachability report) that the harness can execute (`Op.wf`);
-  since every prefix of a history is a history, "for all histories" is "after every step".
+  (route insert / replace / remove, peer drop through either entry point, GR stale marking and
+  purge, LLGR stale marking and purge, soft reset IN, import-policy change, next-hop reachability
+  report, end of restarting-speaker deferral) that the harness can execute (`Op.wf`); since every
+  prefix of a history is a history, "for all histories" is "after every step".
 
     fib   = replay of every `apply` request issued so far        (Spec.fibReplay)
     refs  = replay of every register / unregister request so far  (Spec.refReplay)
     unr   = addresses whose last reachability report said "unreachable"
     rib   = what the table's query API shows after the history
+    dfr   = families still in restarting-speaker deferral (their FIB entries are not claimed)
 -/
 import Rbgp.Fib.Proofs
 namespace Rbgp.Fib.Props
@@ -20,6 +22,9 @@ def reqs (cfg : Cfg) (ops : List Op) : List Req := allReqs cfg (St.init cfg) ops
 def fibOf (cfg : Cfg) (ops : List Op) : Fib := fibReplay [] (fibReqs (reqs cfg ops))
 def ribOf (cfg : Cfg) (ops : List Op) : List DestObs := (stAfter cfg (St.init cfg) ops).dests.map destObs
 def unrOf (ops : List Op) : List Addr := reports [] ops
+/-- the family of `p` is still deferring after the history -/
+def deferringOf (cfg : Cfg) (ops : List Op) (p : Pfx) : Bool :=
+  dfrOf (stAfter cfg (St.init cfg) ops).deferring p
 
 /-- a well-formed case -/
 def WF (cfg : Cfg) (ops : List Op) : Prop := cfg.wf = true ∧ ops.all (Op.wf cfg) = true
@@ -31,56 +36,74 @@ theorem check_run_ok (cfg : Cfg) (ops : List Op) (h : WF cfg ops) :
   checkFrom_run h.1 ops _ _ _ _ _ h.2 (inv_init cfg)
 
 /-- ... also in the canonical form that is printed and compared with the implementation (requests
-    of one step that concern different FIB cells / addresses re-ordered, destinations by prefix). -/
+    of one step that concern different FIB cells / addresses re-ordered, destinations by prefix),
+    and together with the service-feed observation. -/
 theorem check_canon_ok (cfg : Cfg) (ops : List Op) (h : WF cfg ops) :
     Spec.check cfg ops ((obsOfRun (run cfg ops)).map canonStep) = .ok :=
   checkFrom_run_canon h.1 ops _ _ _ _ _ h.2 (inv_init cfg)
 
-/-- After any history the replayed main-table FIB entry of every IPv4/IPv6 prefix is exactly the
-    next-hop list of the best path and the paths tied with it before the router-id step, computed
-    from the stored paths and the reachability reports alone (nothing if no path is eligible). -/
-theorem fib_eq_ecmp (cfg : Cfg) (ops : List Op) (h : WF cfg ops) (p : Pfx) :
+/-- After any history the replayed main-table FIB entry of every prefix whose family is not
+    deferring is exactly the next-hop list of the best path and the paths tied with it before the
+    router-id step, computed from the stored paths and the reachability reports alone (nothing if
+    no path is eligible). -/
+theorem fib_eq_ecmp (cfg : Cfg) (ops : List Op) (h : WF cfg ops) (p : Pfx) (hd : deferringOf cfg ops p = false) :
     fibGet (fibOf cfg ops) 0 p =
       (Spec.ecmp (Spec.eligible (unrOf ops) (ribGet (ribOf cfg ops) p))).map (·.nh) := by
   obtain ⟨_, _, hinv⟩ := inv_after h.1 ops _ _ _ _ h.2 (inv_init cfg)
   unfold fibOf reqs ribOf unrOf
   rw [ribGet_map, want_spec (hinv.sorted_lookup p) (hinv.flags_lookup p)]
-  exact (hinv.cells p).main
+  have := (hinv.cells p).main
+  unfold deferringOf at hd
+  simpa [visE, hd] using this
 
-/-- For a VPN prefix the same holds in every VRF (with a kernel table) whose import targets match
-    the best path, and the VRF entry is gone when no path is eligible. -/
+/-- For a VPN prefix, every VRF with a kernel table holds the same next hops when its import
+    targets match the best path, and nothing when they do not (or no path is eligible): an entry
+    never outlives the best path it was imported from. -/
 theorem vrf_fib_eq (cfg : Cfg) (ops : List Op) (h : WF cfg ops) (p : Pfx) (hp : p.isVpn = true)
-    (v : Vrf) (hv : v ∈ cfg.vrfs) (ht : v.tid ≠ 0) :
+    (hd : deferringOf cfg ops p = false) (v : Vrf) (hv : v ∈ cfg.vrfs) (ht : v.tid ≠ 0) :
     let el := Spec.eligible (unrOf ops) (ribGet (ribOf cfg ops) p)
     (el = [] → fibGet (fibOf cfg ops) v.tid p.local = []) ∧
     (el ≠ [] → (Spec.bests el).all (rtMatch v) = true →
-      fibGet (fibOf cfg ops) v.tid p.local = (Spec.ecmp el).map (·.nh)) := by
+      fibGet (fibOf cfg ops) v.tid p.local = (Spec.ecmp el).map (·.nh)) ∧
+    (el ≠ [] → (Spec.bests el).any (rtMatch v) = false → fibGet (fibOf cfg ops) v.tid p.local = []) := by
   obtain ⟨_, _, hinv⟩ := inv_after h.1 ops _ _ _ _ h.2 (inv_init cfg)
-  have hok := checkVrfPfx_ok hinv v hv p
   intro el
   have hel : el = (eligible (lookupDest (stAfter cfg (St.init cfg) ops).dests p)).map pathObs := by
     show Spec.eligible _ (ribGet (ribOf cfg ops) p) = _
     unfold ribOf unrOf
     rw [ribGet_map, spec_eligible_map (hinv.flags_lookup p)]
-  constructor
-  · intro he
-    have : eligible (lookupDest (stAfter cfg (St.init cfg) ops).dests p) = [] := by
-      rw [hel] at he; simpa using he
-    exact (hinv.cells p).vrfNil hp this v hv ht
-  · intro hne hall
-    cases he : eligible (lookupDest (stAfter cfg (St.init cfg) ops).dests p) with
-    | nil => rw [hel, he] at hne; simp at hne
-    | cons b t =>
-      have hs := (hinv.sorted_lookup p).eligible
-      rw [he] at hs
-      have hb : rtMatch v (pathObs b) = true := by
-        rw [hel, he] at hall
-        exact List.all_eq_true.mp hall (pathObs b) (head_mem_bests hs)
-      have himp : canImport v b.rts = true := by simpa [rtMatch, canImport, pathObs] using hb
-      have hcell := (hinv.cells p).vrfImp hp b t he v hv ht himp
-      have hw := want_spec (hinv.sorted_lookup p) (hinv.flags_lookup p)
-      rw [spec_eligible_map (hinv.flags_lookup p)] at hw
-      rw [hel, hw]; exact hcell
+  have hcell : fibGet (fibOf cfg ops) v.tid p.local =
+      vrfWant v (eligible (lookupDest (stAfter cfg (St.init cfg) ops).dests p)) := by
+    have := (hinv.cells p).vrf hp v hv ht
+    unfold deferringOf at hd
+    unfold fibOf reqs
+    simpa [visE, hd] using this
+  have hs := (hinv.sorted_lookup p).eligible
+  have hw := want_spec (hinv.sorted_lookup p) (hinv.flags_lookup p)
+  rw [spec_eligible_map (hinv.flags_lookup p)] at hw
+  cases he : eligible (lookupDest (stAfter cfg (St.init cfg) ops).dests p) with
+  | nil =>
+    rw [he] at hel hcell
+    refine ⟨fun _ => hcell, fun hne => ?_, fun hne => ?_⟩ <;> (rw [hel] at hne; simp at hne)
+  | cons b t =>
+    rw [he] at hel hcell hs hw
+    have hrm : rtMatch v (pathObs b) = canImport v b.rts := by simp [rtMatch, canImport, pathObs]
+    have hbm := head_mem_bests hs
+    refine ⟨fun e => ?_, fun _ hall => ?_, fun _ hany => ?_⟩
+    · rw [hel] at e; simp at e
+    · have : canImport v b.rts = true := by
+        rw [← hrm]; rw [hel] at hall; exact List.all_eq_true.mp hall _ hbm
+      rw [hcell, hel, hw]; simp [vrfWant, this]
+    · have : canImport v b.rts = false := by
+        rw [← hrm]
+        cases hc : rtMatch v (pathObs b)
+        · rfl
+        · exfalso
+          rw [hel] at hany
+          have : (bests (List.map pathObs (b :: t))).any (rtMatch v) = true :=
+            List.any_eq_true.mpr ⟨_, hbm, hc⟩
+          rw [this] at hany; simp at hany
+      rw [hcell]; simp [vrfWant, this]
 
 /-- The tracking requests never unregister an address without outstanding registration, and the
     number of outstanding registrations of every address equals the number of peer-learned stored
@@ -92,38 +115,102 @@ theorem refcount_eq_uses (cfg : Cfg) (ops : List Op) (h : WF cfg ops) :
   exact ⟨refs, e, fun a => by unfold ribOf; rw [uses_map]; exact hinv.refs a⟩
 
 /-- The `watched` reference counts of the kernel service loop refine the reference fold: fed any
-    request sequence it emits the initial reachability exactly on a first registration and ends
-    with the reference counts (the C20 service checker accepts every model run). -/
-theorem service_refcount_refines (log : List (Bool × Addr)) :
-    (svcRun [] log).1 = (svcExpect [] log).1 ∧
-    ∀ a, watchedGet (svcRun [] log).2 a = refGet (svcExpect [] log).2 a :=
-  svcRun_refines log [] [] (fun _ => rfl)
+    sequence of requests and route events it emits the initial reachability exactly on a first
+    registration and ends with the reference counts (the C20 service checker accepts every model
+    run). -/
+theorem service_refcount_refines (log : List (Option (Bool × Addr))) :
+    (svcRunE [] log).1 = (svcExpectE [] log).1 ∧
+    ∀ a, watchedGet (svcRunE [] log).2 a = refGet (svcExpectE [] log).2 a :=
+  svcRunE_refines log [] [] (fun _ => rfl)
 
 /-- ... and fed the tracking requests of any history, the `watched` count of every address is the
     number of peer-learned stored paths using it. -/
 theorem service_watched_eq_uses (cfg : Cfg) (ops : List Op) (h : WF cfg ops) (a : Addr) :
     watchedGet (svcRun [] (nhtReqs (reqs cfg ops))).2 a = Spec.uses (ribOf cfg ops) a := by
   obtain ⟨refs, e, hu⟩ := refcount_eq_uses cfg ops h
-  rw [(service_refcount_refines _).2 a, svcExpect_of_replay _ _ _ e a, hu a]
+  rw [(svcRun_refines _ [] [] (fun _ => rfl)).2 a, svcExpect_of_replay _ _ _ e a, hu a]
 
-/-- A path whose next hop's last report said "unreachable" is not eligible (by the definition the
-    other theorems use), and no such address occurs in any replayed FIB entry that the property
-    speaks about: the main-table entry of every prefix ... -/
+/-- the reference checker accepts the service-feed observation of every model run -/
+theorem feed_ok (cfg : Cfg) (ops : List Op) (h : WF cfg ops) :
+    Spec.checkFeed (ribOf cfg ops) (feedOfRun (run cfg ops)) = .ok := by
+  unfold Spec.checkFeed feedOfRun
+  have : ∀ a, watchedGet (svcRun [] (nhtOfRun (run cfg ops))).2 a = Spec.uses (ribOf cfg ops) a := by
+    intro a
+    have := service_watched_eq_uses cfg ops h a
+    unfold run
+    rw [nhtOfRun_eq]; exact this
+  simp [this]
+
+/-- the full reference checker (trace + service feed) accepts the canonical observation of every
+    model run -/
+theorem check_all_ok (cfg : Cfg) (ops : List Op) (h : WF cfg ops) :
+    Spec.checkAll cfg ops ((obsOfRun (run cfg ops)).map canonStep) (some (feedOfRun (run cfg ops))) = .ok := by
+  unfold Spec.checkAll
+  rw [check_canon_ok cfg ops h]
+  have hf := feed_ok cfg ops h
+  unfold Spec.checkFeed at hf ⊢
+  have huse : ∀ a, Spec.uses (lastRib ((obsOfRun (run cfg ops)).map canonStep)) a = Spec.uses (ribOf cfg ops) a := by
+    intro a
+    cases hops : ops with
+    | nil => simp [run, runFrom, obsOfRun, lastRib, ribOf, stAfter, St.init]
+    | cons op rest =>
+      have hl := lastRib_run cfg ops (St.init cfg) (by rw [hops]; simp)
+      have : lastRib ((obsOfRun (run cfg ops)).map canonStep) = sortBy destLe (lastRib (obsOfRun (run cfg ops))) := by
+        unfold lastRib
+        rw [List.getLast?_map]
+        cases (obsOfRun (run cfg ops)).getLast? <;> simp [canonStep, sortBy]
+      rw [← hops, this, uses_perm (sortBy_perm destLe _)]
+      unfold run ribOf
+      rw [hl]
+  simp only [huse]
+  exact hf
+
+/-- No address whose last report said "unreachable" occurs in a replayed main-table entry ... -/
 theorem invalid_excluded (cfg : Cfg) (ops : List Op) (h : WF cfg ops) (p : Pfx) (a : Addr)
     (ha : a ∈ fibGet (fibOf cfg ops) 0 p) : (unrOf ops).contains a = false := by
   obtain ⟨_, _, hinv⟩ := inv_after h.1 ops _ _ _ _ h.2 (inv_init cfg)
-  have hm : fibGet (fibOf cfg ops) 0 p = want (eligible (lookupDest (stAfter cfg (St.init cfg) ops).dests p)) :=
-    (hinv.cells p).main
-  rw [hm] at ha
-  have := want_reachable (hinv.flags_lookup p)
-  cases hc : (unrOf ops).contains a
-  · rfl
-  · exfalso
-    have hany : (want (eligible (lookupDest (stAfter cfg (St.init cfg) ops).dests p))).any
-        (fun a => (reports [] ops).contains a) = true := List.any_eq_true.mpr ⟨a, ha, hc⟩
-    rw [this] at hany; exact absurd hany (by simp)
+  have hm := (hinv.cells p).main
+  have hmem : a ∈ want (visE (dfrOf (stAfter cfg (St.init cfg) ops).deferring p)
+      (lookupDest (stAfter cfg (St.init cfg) ops).dests p)) := by rw [← hm]; exact ha
+  cases hdf : dfrOf (stAfter cfg (St.init cfg) ops).deferring p with
+  | true => simp [visE, hdf, want, ecmpPaths] at hmem
+  | false =>
+    simp only [visE, hdf, Bool.false_eq_true, if_false] at hmem
+    have := want_reachable (hinv.flags_lookup p)
+    cases hc : (unrOf ops).contains a
+    · rfl
+    · exfalso
+      have hany : (want (eligible (lookupDest (stAfter cfg (St.init cfg) ops).dests p))).any
+          (fun a => (reports [] ops).contains a) = true := List.any_eq_true.mpr ⟨a, hmem, hc⟩
+      rw [this] at hany; exact absurd hany (by simp)
 
-/-- ... and every stored path's NEXTHOP_INVALID flag is the last report about its next hop, so it
+/-- ... nor in the entry of any VRF table. -/
+theorem invalid_excluded_vrf (cfg : Cfg) (ops : List Op) (h : WF cfg ops) (p : Pfx) (hp : p.isVpn = true)
+    (v : Vrf) (hv : v ∈ cfg.vrfs) (ht : v.tid ≠ 0) (a : Addr)
+    (ha : a ∈ fibGet (fibOf cfg ops) v.tid p.local) : (unrOf ops).contains a = false := by
+  obtain ⟨_, _, hinv⟩ := inv_after h.1 ops _ _ _ _ h.2 (inv_init cfg)
+  have hm := (hinv.cells p).vrf hp v hv ht
+  have hmem : a ∈ vrfWant v (visE (dfrOf (stAfter cfg (St.init cfg) ops).deferring p)
+      (lookupDest (stAfter cfg (St.init cfg) ops).dests p)) := by rw [← hm]; exact ha
+  cases hdf : dfrOf (stAfter cfg (St.init cfg) ops).deferring p with
+  | true => simp [visE, hdf, vrfWant] at hmem
+  | false =>
+    simp only [visE, hdf, Bool.false_eq_true, if_false] at hmem
+    have := vrfWant_reachable (hinv.flags_lookup p) v
+    cases hc : (unrOf ops).contains a
+    · rfl
+    · exfalso
+      have hany : (vrfWant v (eligible (lookupDest (stAfter cfg (St.init cfg) ops).dests p))).any
+          (fun a => (reports [] ops).contains a) = true := List.any_eq_true.mpr ⟨a, hmem, hc⟩
+      rw [this] at hany; exact absurd hany (by simp)
+
+/-- Every replayed FIB entry is in the main table or in the table of a configured VRF. -/
+theorem fib_cells_known (cfg : Cfg) (ops : List Op) (h : WF cfg ops) :
+    ∀ e ∈ fibOf cfg ops, checkCell cfg e = none := by
+  obtain ⟨_, _, hinv⟩ := inv_after h.1 ops _ _ _ _ h.2 (inv_init cfg)
+  exact fun e he => checkCell_ok hinv e he
+
+/-- Every stored path's NEXTHOP_INVALID flag is the last report about its next hop, so it
     re-enters selection exactly when the address is reported reachable again. -/
 theorem invalid_flag_eq_report (cfg : Cfg) (ops : List Op) (h : WF cfg ops) (d : Dest)
     (hd : d ∈ (stAfter cfg (St.init cfg) ops).dests) (x : Path) (hx : x ∈ d.paths) :
@@ -133,9 +220,12 @@ theorem invalid_flag_eq_report (cfg : Cfg) (ops : List Op) (h : WF cfg ops) (d :
 
 -- ---------------------------------------------------------------- non-vacuity and witnesses
 
+def at0 : Attrs := ⟨100, 0, [], 0, 0, false, false, false⟩
+def atRt (rts : List Nat) : Attrs := ⟨100, 0, rts, 0, 0, false, false, false⟩
+
 /-- S30 history: two peers tied before the router-id step announce the same prefix. -/
-def s30cfg : Cfg := ⟨[1, 2], []⟩
-def s30ops : List Op := [.ins 0 ⟨0, 1⟩ 0 1 100 0 [], .ins 1 ⟨0, 1⟩ 0 2 100 0 []]
+def s30cfg : Cfg := ⟨[(1, 0), (2, 0)], [], []⟩
+def s30ops : List Op := [.ins 0 ⟨0, 1⟩ 0 1 at0, .ins 1 ⟨0, 1⟩ 0 2 at0]
 
 example : WF s30cfg s30ops := by decide
 /-- with the repaired `distribute_update` the second insertion (best unchanged) re-issues the request -/
@@ -143,26 +233,50 @@ example : fibGet (fibOf s30cfg s30ops) 0 ⟨0, 1⟩ = [1, 2] := by decide
 /-- the reference checker rejects what the unrepaired code did on this history (no request for the
     second insertion): observation recorded from the tree before the repair -/
 example : Spec.check s30cfg s30ops
-    [⟨[⟨0, ⟨0, 1⟩, [1]⟩], [(true, 1)], [⟨⟨0, 1⟩, [⟨0, 0, 1, false, false, 100, true, 0, 1, []⟩]⟩]⟩,
-     ⟨[], [(true, 2)], [⟨⟨0, 1⟩, [⟨0, 0, 1, false, false, 100, true, 0, 1, []⟩,
-                                   ⟨1, 0, 2, false, false, 100, true, 0, 2, []⟩]⟩]⟩]
+    [⟨[⟨0, ⟨0, 1⟩, [1]⟩], [(true, 1)], [⟨⟨0, 1⟩, [⟨0, 0, 1, false, false, false, 100, 0, 0, true, 0, 1, []⟩]⟩]⟩,
+     ⟨[], [(true, 2)], [⟨⟨0, 1⟩, [⟨0, 0, 1, false, false, false, 100, 0, 0, true, 0, 1, []⟩,
+                                   ⟨1, 0, 2, false, false, false, 100, 0, 0, true, 0, 2, []⟩]⟩]⟩]
     = .fail 1 "fib-ne-ecmp" := by decide
 
+/-- VRF history: the best path stops matching the VRF (a better path with another route target
+    arrives), then the old next hop is reported unreachable. -/
+def vrfCfg : Cfg := ⟨[(1, 0), (2, 0)], [⟨10, [1]⟩], []⟩
+def vrfOps : List Op :=
+  [.ins 0 ⟨2, 3⟩ 0 1 (atRt [1]), .ins 1 ⟨2, 3⟩ 0 2 ⟨200, 0, [2], 0, 0, false, false, false⟩, .nh 1 false]
+
+example : WF vrfCfg vrfOps := by decide
+/-- with the repaired `distribute_update` the VRF entry is withdrawn when the best stops matching -/
+example : fibGet (fibOf vrfCfg (vrfOps.take 1)) 10 ⟨0, 3⟩ = [1] := by decide
+example : fibGet (fibOf vrfCfg vrfOps) 10 ⟨0, 3⟩ = [] := by decide
+/-- the reference checker rejects what the unrepaired code did (the VRF kept next hop 1): -/
+example : Spec.check vrfCfg (vrfOps.take 2)
+    [⟨[⟨0, ⟨2, 3⟩, [1]⟩, ⟨10, ⟨0, 3⟩, [1]⟩], [(true, 1)],
+      [⟨⟨2, 3⟩, [⟨0, 0, 1, false, false, false, 100, 0, 0, true, 0, 1, [1]⟩]⟩]⟩,
+     ⟨[⟨0, ⟨2, 3⟩, [2]⟩], [(true, 2)],
+      [⟨⟨2, 3⟩, [⟨1, 0, 2, false, false, false, 200, 0, 0, true, 0, 2, [2]⟩,
+                 ⟨0, 0, 1, false, false, false, 100, 0, 0, true, 0, 1, [1]⟩]⟩]⟩]
+    = .fail 1 "vrf-stale-entry" := by decide
+
 /-- a richer well-formed history: VPN route imported into a VRF, next hop reported unreachable
-    and reachable again, GR stale + purge, soft reset after a policy that rewrites the next hop -/
-def demoCfg : Cfg := ⟨[1, 2, 2], [⟨10, [1]⟩, ⟨11, [2]⟩]⟩
+    and reachable again, GR stale + purge, soft reset after a policy that rewrites the next hop,
+    LLGR, deferral of the IPv4 family -/
+def demoCfg : Cfg := ⟨[(1, 0), (2, 0), (2, 1)], [⟨10, [1]⟩, ⟨11, [2]⟩], [0]⟩
 def demoOps : List Op :=
-  [.ins 0 ⟨2, 3⟩ 0 1 100 0 [1], .ins 1 ⟨2, 3⟩ 0 2 100 0 [1], .nh 1 false, .nh 1 true,
-   .pol [⟨.peer 1, .set 3⟩], .soft 1, .stale 0, .ins 0 ⟨2, 3⟩ 0 1 100 0 [1], .purge 0, .down 1]
+  [.ins 0 ⟨2, 3⟩ 0 1 (atRt [1]), .ins 1 ⟨2, 3⟩ 0 2 (atRt [1]), .nh 1 false, .nh 1 true,
+   .pol [⟨.peer 1, .set 3⟩], .soft 1, .stale 0, .ins 0 ⟨2, 3⟩ 0 1 (atRt [1]), .purge 0,
+   .ins 2 ⟨0, 1⟩ 0 2 at0, .undefer 0, .llgr 1, .lpurge 1, .down 0]
 
 example : WF demoCfg demoOps := by decide
-example : fibGet (fibOf demoCfg demoOps) 10 ⟨0, 3⟩ = [1] := by decide
 example : fibGet (fibOf demoCfg (demoOps.take 6)) 10 ⟨0, 3⟩ = [1, 3] := by decide
 example : fibGet (fibOf demoCfg (demoOps.take 3)) 10 ⟨0, 3⟩ = [2] := by decide
+example : fibGet (fibOf demoCfg (demoOps.take 10)) 0 ⟨0, 1⟩ = [] := by decide      -- still deferring
+example : fibGet (fibOf demoCfg (demoOps.take 11)) 0 ⟨0, 1⟩ = [2] := by decide     -- released
+example : fibGet (fibOf demoCfg demoOps) 10 ⟨0, 3⟩ = [] := by decide
 /-- after the soft reset peer 0 still uses next hop 1, peer 1 now uses 3 (was 2) -/
 example : (refReplay [] (nhtReqs (reqs demoCfg (demoOps.take 6)))).map (fun r => (refGet r 1, refGet r 2, refGet r 3))
     = some (1, 0, 1) := by decide
-example : svcRun [] [(true, 1), (true, 1), (false, 1), (false, 2), (true, 2)] = ([true, false, false, false, true], [(2, 1), (1, 1)]) := by
+example : svcRunE [] [some (true, 1), some (true, 1), none, some (false, 1), some (false, 2), some (true, 2)] =
+    ([true, false, false, false, false, true], [(2, 1), (1, 1)]) := by
   decide
 
 end Rbgp.Fib.Props
